@@ -143,7 +143,7 @@ pub fn run(args: &Args) -> Value {
             }
             let before = read_slots(&m);
             let len = before.len();
-            let kind = rng.below(10);
+            let kind = rng.below(11);
             *hist.entry(kind).or_insert(0usize) += 1;
             total_mut += 1;
             // expected contents are built from the decisions the callback makes
@@ -242,6 +242,24 @@ pub fn run(args: &Args) -> Value {
                         let mut args = m.get_empty_args(SubvarAccess::Varlist(&vs));
                         let hints: Vec<Option<usize>> = vs.iter().map(|_| None).collect();
                         m.fill_args_at_p_with_hint(a, &mut args, &vs, hints.into_iter());
+                        let vs2 = vs.clone();
+                        let (_, args) = m.mutate_p(|_, op, t: ()| {
+                            let inside = op.map(|o| o.get_vars().iter().all(|v| vs2.contains(v))).unwrap_or(true);
+                            (if inside { decide(a, op, true, true, Some(&vs2)) } else { None }, t)
+                        }, a, (), args);
+                        m.return_args(args);
+                    }
+                }
+                10 => {
+                    // a sub-variable cursor (SubvarAccess::Varlist) built by the PLAIN backward walk fill_args_at_p —
+                    // also on variables that carry no operators at all — followed by a structural change at that slot
+                    if len > 0 {
+                        let k = 1 + rng.below(nvars as u64) as usize;
+                        let mut vs = pick_distinct(&mut rng, nvars, k);
+                        vs.sort_unstable();
+                        let a = rng.below(len as u64) as usize;
+                        let args = m.get_empty_args(SubvarAccess::Varlist(&vs));
+                        let args = m.fill_args_at_p(a, args);
                         let vs2 = vs.clone();
                         let (_, args) = m.mutate_p(|_, op, t: ()| {
                             let inside = op.map(|o| o.get_vars().iter().all(|v| vs2.contains(v))).unwrap_or(true);
